@@ -142,11 +142,13 @@ func vpH_c09_cmd_plugins() {
 	case 4:
 		cfg = []any{} // invalid but must not break the round trip
 	}
-	switch vpInt(0, 2) {
+	switch vpInt(0, 3) {
 	case 1:
 		x.Plugins = Plugins{}
 	case 2:
 		x.Plugins = Plugins{{Source: src, Config: cfg}, {Source: "github.com/o/r-buildkite-plugin#v2", Config: nil}}
+	case 3: // one plugin listed twice, under its short and its canonical spelling: two entries
+		x.Plugins = Plugins{{Source: src, Config: cfg}, {Source: "github.com/buildkite-plugins/" + src + "-buildkite-plugin", Config: nil}}
 	}
 	c2, _, ok := vpReparseStep(x)
 	if !ok {
